@@ -222,6 +222,8 @@ def entry_points(nfc, clf, present_polls):
         "listen_f": lambda: clf.listen(nfc.clf.LocalTarget("212F"), 0.01),
         "listen_dep": lambda: clf.listen(nfc.clf.LocalTarget("106A", atr_res=bytearray(17)), 0.01),
         "exchange": lambda: clf.exchange(b"\x00", 0.01),
+        "exchange_as_target": lambda: (setattr(clf, "target", nfc.clf.LocalTarget("106A")), clf.exchange(b"\x00", None)),
+        "exchange_as_target_t": lambda: (setattr(clf, "target", nfc.clf.LocalTarget("106A")), clf.exchange(b"\x00", 0.01)),
         "max_send": lambda: clf.max_send_data_size,
         "max_recv": lambda: clf.max_recv_data_size,
         "connect_rdwr_beep": lambda: rdwr(True, True),
@@ -285,8 +287,20 @@ def run(ck):
     FakeDevice = make_device(nfc, clf_ref, rec, lambda: delay[0] if delay[0] and rng.random() < 0.3 else 0)
     orig_connect = nfc.clf.device.connect
     nfc.clf.device.connect = lambda path: FakeDevice()
-    orig_sleep = nfc.clf.time.sleep
-    nfc.clf.time.sleep = lambda s: orig_sleep(min(s, 0.001))
+    real_time = nfc.clf.time
+
+    class FastClock(object):
+        """the frontend's view of `time`: 100 x faster, sleeps cut short (waiting loops with a
+        deadline expire quickly; mutual exclusion must not depend on timing)"""
+        def time(self):
+            return real_time.time() * 100.0
+
+        def sleep(self, s):
+            real_time.sleep(min(s, 0.001))
+
+        def __getattr__(self, name):
+            return getattr(real_time, name)
+    nfc.clf.time = FastClock()
     static_methods = {re.sub(r" \(.*", "", s[2]) for s in tr.sites}
     seen = set()
     try:
@@ -401,9 +415,49 @@ def run(ck):
             ck.case(("closer", c[0], c[4], c[1], c[2]), True, "closer-vs-users")
         sys.setswitchinterval(old_switch)
         ylock.on = False
+        # a long driver call in one thread (listen blocks in the driver) while others close / query
+        if clf.device is None:
+            clf.open("fake")
+        gate = threading.Event()
+        entered = threading.Event()
+        dev = clf.device
+        orig_listen = dev.listen_tta
+
+        def slow_listen(target, timeout):
+            dev._enter("listen_tta")
+            entered.set()
+            gate.wait(0.25)
+            dev._leave()
+            return None
+        dev.listen_tta = slow_listen
+        before = len(rec.calls)
+
+        def guarded(fn, nm):
+            try:
+                fn()
+            except (IOError, nfc.clf.Error, ValueError, AssertionError):
+                pass
+            except (AttributeError, TypeError) as e:
+                with rec.mutex:
+                    rec.violations.append(("device-vanished-during-operation", nm + ": " + str(e)[:60]))
+        t1 = threading.Thread(target=guarded, args=(eps["listen_a"], "listen_a"), daemon=True, name="long-listen")
+        t1.start()
+        entered.wait(5)
+        others = [threading.Thread(target=guarded, args=(f, nm), daemon=True, name="during-" + nm)
+                  for nm, f in (("close", clf.close), ("max_send", eps["max_send"]), ("exchange", eps["exchange"]))]
+        for t in others:
+            t.start()
+        real_time.sleep(0.12)       # 12 virtual seconds pass while the driver call is still running
+        gate.set()
+        for t in [t1] + others:
+            t.join(30)
+        if any(t.is_alive() for t in [t1] + others):
+            raise Infra("long-call scenario did not finish")
+        for c in rec.calls[before:]:
+            ck.case(("long-call", c[0], c[4], c[1], c[2], c[3]), True, "long-driver-call")
     finally:
         nfc.clf.device.connect = orig_connect
-        nfc.clf.time.sleep = orig_sleep
+        nfc.clf.time = real_time
 
     for kind, name in rec.violations:
         ck.fail(kind + ":" + name, "driver method %s entered %s" % (name, kind.replace("-", " ")),
